@@ -807,10 +807,6 @@ class TextXMetaModel(DebugPrinter):
                 callback(other_model)
 
         loaded_now = not model
-        if loaded_now and is_main_model and hasattr(self, "_tx_model_repository"):
-            known_before = set(self._tx_model_repository.all_models.filename_to_model)
-        else:
-            known_before = None
 
         if not model:
             # Read model from file
@@ -831,22 +827,18 @@ class TextXMetaModel(DebugPrinter):
             for p in self._model_processors:
                 p(model, self)
         except:  # noqa
-            if known_before is not None and hasattr(model, "_tx_metamodel"):
+            if loaded_now and is_main_model and hasattr(model, "_tx_parser"):
                 # The load failed: models loaded by this attempt must not
-                # stay cached in the global repository.
+                # stay cached in the repositories (the meta-model's global
+                # repository or a repository kept by the caller).
                 from textx.scoping import (
                     get_included_models,
                     remove_models_from_repositories,
                 )
 
-                models = get_included_models(model)
                 remove_models_from_repositories(
-                    models,
-                    [
-                        m
-                        for m in models
-                        if not (m._tx_filename and abspath(m._tx_filename) in known_before)
-                    ],
+                    get_included_models(model),
+                    getattr(model._tx_parser, "_models_of_this_load", [model]),
                 )
             raise
 
